@@ -95,3 +95,10 @@ Section Loader.
         end
     end.
 End Loader.
+
+(* What Load then runs (compiler.go compilePkgs, vm.go Load): the package trees are compiled one after the
+   other in list order and the code is concatenated; inside one package treeSort puts the init calls after the
+   top-level declarations (C16).  Projected to "which package does each piece of code belong to", for a package
+   with [nf p] files with top-level code and one init: *)
+Definition run_events (nf : string -> nat) (order : list string) : list string :=
+  flat_map (fun p => repeat p (S (nf p))) order.
